@@ -9,21 +9,19 @@
      Model/LZSpec.v   specification side: strict parser [sparse11] of the LZ11 container (three length forms).
    Not proved: the *value* of the three wrapper length bytes (the property does not constrain them; the
    correspondence compares them with the model for inputs up to 1200 bytes).
-   Totality ("for every input ... returns Ok or Err and never panics or aborts"): calculate_lz13_header counts
-   in Wrapping<i32>.  Model/LZ11.v represents its positions as list positions (faithful below 2^31 bytes, and
-   the model the extracted code and all other theorems use); Model/LZ13Machine.v models the same function at
-   machine level - seven wrapping i32 variables, `as usize` sign extension, checked slice indexing, the
-   reservation with Vec::reserve's own capacity check - for inputs of any length, and Model/LZCompressMachine.v
-   the main loop and get_occurrence_length (checked indexing, usize arithmetic in a profile): [compress13_mm].  [C09_machine_model] proves
-   the two equal below 2^31 bytes; [C09_total] proves that the machine-level model returns Ok for EVERY input
-   shorter than 2^62 bytes (no index out of range, no fuel exhausted, never the Err branch), and
-   [C09_total_boundary] states exactly what happens up to the largest slice Rust allows (isize::MAX bytes):
-   Ok, except that `result.reserve(12 + n + (n+7)/8)` panics with "capacity overflow" when that sum exceeds
-   isize::MAX, i.e. for n > 0.888 * 2^63 - an input that cannot exist (it would need more than 2^62 bytes of
-   address space next to the output buffer; 64-bit targets have at most 2^57).  What remains assumed: inputs
-   of 2 GiB and more cannot be run by the harness, so above 2^31 the machine-level model is tied to
-   src/lz13.rs:93-160 by reading only; an allocation FAILURE (out of memory) aborts the process and is
-   outside the model; a 64-bit target. *)
+   Totality ("for every input ... returns Ok or Err and never panics or aborts"): after the repair of F21 compress
+   starts with the guard `length as u64 > 0xFFFF_FFFF -> Err(InputTooLarge)`, so everything behind it sees fewer than
+   2^32 bytes.  calculate_lz13_header counts in Wrapping<i32>: Model/LZ11.v represents its positions as list
+   positions (faithful below 2^31 bytes; the model the extracted code and the format theorems use),
+   Model/LZ13Machine.v models it at machine level (seven wrapping i32 variables, `as usize` sign extension, checked
+   slice indexing) together with the reservation as an observable, Model/LZCompressMachine.v the main loop and
+   get_occurrence_length: [compress13_mm].  [C09_total]: for EVERY input, Ok below 2^32 bytes and Err from there on.
+   [C09_reservation]: the allocation request is 12 + n + (n+7)/8 in both profiles ("never aborts" = the request is
+   linear in the input).  [C09_machine_model]: equal to the list model below 2^31; [C09_round_trip_machine]: the round
+   trip holds for the machine-level model up to 2^32 as well.  What remains assumed: inputs of 2 GiB and more cannot
+   be run by the harness, so above 2^31 the machine-level model is tied to src/lz13.rs by reading only; an allocation
+   FAILURE (out of memory for a request that is linear in the input) aborts the process and is outside the model; a
+   64-bit target. *)
 From Coq Require Import List NArith Bool.
 From Mila Require Import Lib.Bytes Lib.Machine Model.LZCore Model.LZ11 Model.LZ13Machine Model.LZCompressMachine Model.LZSpec Model.LZDecode
   Proofs.LZCoreProofs Proofs.LZTokens Proofs.LZ11Proofs Proofs.LZDecodeProofs Proofs.LZRoundTrip Proofs.LZ13MachineProofs Proofs.LZCompressMachineProofs Proofs.LZFormat Proofs.LZRoundTripExt.
@@ -58,20 +56,52 @@ Theorem C09_round_trip_below_4GiB : forall m x, wfb x -> lenN x < 2 ^ 32 ->
     forall m', lz13_decompress m' (0x13 :: a :: b :: c :: s) = Ok x.
 Proof. exact compress13_round_trip_ext. Qed.
 
-(* never Panic, never Err, never out of fuel - the empty input included - on the machine-level model
-   [compress13_mm] (header computation, reservation AND main loop with get_occurrence_length at machine level), for
-   every input shorter than 2^62 bytes; up to isize::MAX the only other outcome is Vec::reserve's capacity panic *)
-Theorem C09_total : forall m x, lenN x < 2 ^ 62 -> exists r, compress13_mm m x = Ok r.
-Proof. exact compress13_mm_ok. Qed.
+(* TOTALITY, for EVERY input and either profile, on the machine-level model [compress13_mm] (size guard of F21,
+   header computation, reservation, main loop and get_occurrence_length all at machine level): Ok below 2^32 bytes
+   - the empty input included -, Err(InputTooLarge) from 2^32 bytes on; never Panic, never out of fuel *)
+Theorem C09_total : forall m x,
+  (lenN x < 2 ^ 32 -> exists r, compress13_mm m x = Ok r) /\
+  (2 ^ 32 <= lenN x -> compress13_mm m x = Err ETooLarge).
+Proof.
+  intros m x. split; intros H; [|exact (compress13_mm_rejects m x H)].
+  destruct (compress13_mm_ok m x H) as [h Hh]. eauto.
+Qed.
 
-Theorem C09_total_boundary : forall m x, lenN x < 2 ^ 63 ->
-  (12 + lenN x + (lenN x + 7) / 8 <= ISIZE_MAX -> exists r, compress13_mm m x = Ok r) /\
-  (ISIZE_MAX < 12 + lenN x + (lenN x + 7) / 8 -> compress13_mm m x = Panic PAlloc).
-Proof. exact compress13_mm_total. Qed.
+(* "never aborts": the only allocation request derived from the input, result.reserve(..), as an observable.
+   In either profile it is exactly 12 + n + (n+7)/8 bytes - at most 2n + 13, linear in the input the caller already
+   holds - for every length below 2^62 (the guard lets only n < 2^32 through).  The expression before the repair
+   of F12 does not satisfy this at n = 0 (it wrapped to about 2^61 bytes in the release profile).  The other
+   reservation, out_buffer.reserve_exact(8 * 4 + 1), is the constant 33. *)
+Theorem C09_reservation : forall m n, n < 2 ^ 62 ->
+  compress13_reserve m n = Ok (12 + n + (n + 7) / 8) /\ 12 + n + (n + 7) / 8 <= 2 * n + 13 /\ out_buffer_reserve = 33.
+Proof.
+  intros m n Hn. split; [exact (compress13_reserve_ok m n Hn)|]. split; [|reflexivity].
+  destruct (compress13_reserve_linear m n Hn) as (c & Hc & Hle). rewrite (compress13_reserve_ok m n Hn) in Hc.
+  injection Hc as <-. exact Hle.
+Qed.
 
-(* below 2 GiB the machine-level model IS the list model of all other theorems (and of the extracted code) *)
-Theorem C09_machine_model : forall m x, lenN x < 2 ^ 31 -> compress13_mm m x = compress13 m x.
+(* up to the largest slice Rust allows the only other outcome of the reservation is Vec::reserve's own capacity
+   panic, for a request above isize::MAX (n > 0.888 * 2^63; unreachable behind the guard) *)
+Theorem C09_reservation_boundary : forall m n, n < 2 ^ 63 ->
+  (12 + n + (n + 7) / 8 <= ISIZE_MAX -> compress13_reserve m n = Ok (12 + n + (n + 7) / 8)) /\
+  (ISIZE_MAX < 12 + n + (n + 7) / 8 -> compress13_reserve m n = Panic PAlloc).
+Proof. exact compress13_reserve_boundary. Qed.
+
+(* below 2 GiB the machine-level model IS the exported list model [compress13_o] (guard, then compress13) of all other
+   theorems and of the extracted code *)
+Theorem C09_machine_model : forall m x, lenN x < 2 ^ 31 -> compress13_mm m x = compress13_o m x.
 Proof. exact compress13_mm_list. Qed.
+
+(* the exported function: compress13 below 4 GiB, Err from 4 GiB on *)
+Theorem C09_exported : forall m x,
+  (lenN x < 2 ^ 32 -> compress13_o m x = compress13 m x) /\ (2 ^ 32 <= lenN x -> compress13_o m x = Err ETooLarge).
+Proof. intros m x. split; [exact (compress13_o_small m x) | exact (compress13_o_rejects m x)]. Qed.
+
+(* the round trip on the machine-level model itself, for every byte string below 4 GiB: between 2^31 and 2^32 bytes
+   the list model's three wrapper length bytes are not proved equal to the code's, and the decoder never reads them *)
+Theorem C09_round_trip_machine : forall m x, wfb x -> lenN x < 2 ^ 32 ->
+  exists c, compress13_mm m x = Ok c /\ forall m', lz13_decompress m' c = Ok x.
+Proof. exact compress13_mm_round_trip. Qed.
 
 Theorem C09_total_list_model : forall m x, lenN x < 2 ^ 31 -> exists r, compress13 m x = Ok r.
 Proof. exact compress13_total. Qed.
@@ -88,7 +118,11 @@ Proof. exact compress13_enc. Qed.
 Theorem C09_format_entry : forall mc md x, wfb x -> lenN x < 2 ^ 24 ->
   cf_compress CF13 mc x = compress13 mc x /\
   exists c, cf_compress CF13 mc x = Ok c /\ cf_decompress CF13 md c = Ok x.
-Proof. intros mc md x Hw Hn. split; [reflexivity | exact (cf_round_trip CF13 mc md x Hw Hn)]. Qed.
+Proof.
+  intros mc md x Hw Hn. split; [|exact (cf_round_trip CF13 mc md x Hw Hn)].
+  apply compress13_o_small. change (2 ^ 24) with 16777216 in Hn. change (2 ^ 32) with 4294967296.
+  apply N.lt_trans with (1 := Hn). reflexivity.
+Qed.
 
 (* non-vacuity: all three length forms in one input (runs of 10, 100 and 300 bytes) *)
 Example C09_example :
@@ -102,5 +136,6 @@ Proof. vm_compute. repeat split; try reflexivity. discriminate. Qed.
 (* the machine-level model computes the same bytes on that input (and on the empty one) *)
 Example C09_example_machine :
   let x := repeat 1 10 ++ repeat 2 100 ++ repeat 3 300 in
-  compress13_mm Checked x = compress13 Checked x /\ compress13_mm Wrapping [] = Ok [0x13; 9; 0; 0; 0x11; 0; 0; 0; 0; 0; 0; 0].
-Proof. split; vm_compute; reflexivity. Qed.
+  compress13_mm Checked x = compress13 Checked x /\ compress13_mm Wrapping [] = Ok [0x13; 9; 0; 0; 0x11; 0; 0; 0; 0; 0; 0; 0] /\
+  compress13_reserve Wrapping 0 = Ok 12.
+Proof. repeat split; vm_compute; reflexivity. Qed.
